@@ -9,7 +9,7 @@ from .common import LEAN, REPO, write_if_changed
 sys.path.insert(0, str(Path(__file__).resolve().parent.parent))
 
 
-ALL = ("scopemap", "builtin", "envconfig", "checkapi", "skeletons", "alias", "registry", "columnprops", "scriptslots", "inferstats", "decorators", "modelrules", "coercerules", "backendrules", "strategyrules", "subsamplerules")
+ALL = ("scopemap", "builtin", "envconfig", "checkapi", "skeletons", "alias", "registry", "columnprops", "scriptslots", "inferstats", "decorators", "modelrules", "coercerules", "backendrules", "strategyrules", "subsamplerules", "schemamutation")
 
 
 def regenerate(which=("scopemap",)) -> dict:
@@ -70,6 +70,9 @@ def regenerate(which=("scopemap",)) -> dict:
     if "strategyrules" in which:
         from extract import strategy_rules
         write_if_changed(gen / "StrategyRules.lean", strategy_rules.render(REPO))
+    if "schemamutation" in which:
+        from extract import schema_mutation
+        write_if_changed(gen / "SchemaMutation.lean", schema_mutation.render(REPO))
     if "subsamplerules" in which:
         from extract import subsample_rules
         write_if_changed(gen / "SubsampleRules.lean", subsample_rules.render(REPO))
